@@ -166,6 +166,8 @@ pub fn cross_generate(own: &str, sources: &[&str], seed: u64, run: u64, tier: Ti
         "C12" => c12::C12.own_generate(fseed, frun, tier, avoid),
         _ => return None,
     };
+    // device variants that only the source's own oracle can judge
+    c.cfg.dl_queue0 = false;
     // `knob` is private to each property (C09: enumerate RNG outcomes)
     c.knob = if own == "C09" && (tier == Tier::Thorough || run % 8 == 0) { 1 } else { 0 };
     Some(c)
